@@ -29,7 +29,8 @@ THOROUGH_RUNS = 250_000
 EXPECT_PROBES = ["created_on_grid", "created_1us_before_grid", "created_1us_after_grid", "tick_late_ge_1_period",
                  "series_added_while_running", "slow_sink", "stall_exactly_one_period", "actor_resample_restarted",
                  "moving_window_variant", "align_to_in_dst_zone", "wall_clock_ticks_between_reads",
-                 "resample_restarted_by_driver", "series_added_during_tick", "series_removed_while_running"]
+                 "resample_restarted_by_driver", "series_added_during_tick", "series_removed_while_running",
+                 "slow_source", "source_stopped"]
 
 UNIX_EPOCH = datetime.fromtimestamp(0.0, tz=timezone.utc)
 PERIODS_US = [200_000, 1_000_000, 1_500_000, 3_000_000, 7_300_000]
@@ -195,7 +196,8 @@ def scenario(sim: Sim) -> None:
         if pre:
             await _until(sim, pre)
         creation_us = sim.now_us
-        cfg = ResamplerConfig(resampling_period=period, align_to=align_to, max_data_age_in_periods=2.0)
+        cfg = ResamplerConfig(resampling_period=period, align_to=align_to,
+                              max_data_age_in_periods=ch.choice("max_age_periods", [2.0, 4.0]))
         rs = Resampler(cfg)
         creation = (creation_us, sim.now_us)
         run_us = nticks * period_us
@@ -288,11 +290,19 @@ def scenario(sim: Sim) -> None:
             for t_add in list(pending_adds):
                 sim.loop.at_abs(t_add, on_idle)     # also in the middle of a tick, not only at idle points
 
+        slow_every = ch.choice("slow_source_every", [0, 0, 3, 5])     # 0: all sources equally fast
+        if slow_every:
+            sim.probe("slow_source")
+
         async def feeder() -> None:
             n = 0
+            rnd = 0
             while True:
                 await asyncio.sleep(period_us / 1e6 * 0.7)
-                for src in list(sources):
+                rnd += 1
+                for j, src in enumerate(list(sources)):
+                    if slow_every and j % 2 == 0 and rnd % slow_every:
+                        continue      # this source delivers only every few periods (up-sampling)
                     n += 1
                     await src[1].send(Sample(sim.wall(), Quantity(float(n))))
 
@@ -349,7 +359,9 @@ def scenario(sim: Sim) -> None:
 
         async def data_sourcing() -> None:
             async for req in ds_rx:
-                src_tx.append(reg.get_or_create(Sample[Quantity], req.get_channel_name()).new_sender())
+                tx = reg.get_or_create(Sample[Quantity], req.get_channel_name()).new_sender()
+                tx._verif_key = req.get_channel_name()  # type: ignore[attr-defined]
+                src_tx.append(tx)
 
         t_ds = sim.spawn(data_sourcing())
         readers: list[Any] = []
@@ -398,6 +410,28 @@ def scenario(sim: Sim) -> None:
                 for tx in list(src_tx):
                     n += 1
                     await tx.send(Sample(sim.wall(), Quantity(float(n))))
+
+        # fault: the data source of one (later) subscription stops - the actor removes that series and goes on;
+        # afterwards exact duplicates of the healthy subscriptions are sent (must have no effect)
+        if nadd and ch.chance("source_stops", 0.3):
+            victim_cid = 50 + ch.draw("victim", nadd)
+
+            async def stop_source() -> None:
+                key = ComponentMetricRequest("ns:Source", victim_cid, ComponentMetricId.ACTIVE_POWER, None).get_channel_name()
+                if key in reg:
+                    sim.probe("source_stopped")
+                    sim.fault("source_stopped")
+                    sim.note(f"source of c{victim_cid} stops")
+                    sim.ev("source_stop", f"c{victim_cid}")
+                    rec.removed[f"c{victim_cid}"] = sim.now_us
+                    src_tx[:] = [t for t in src_tx if getattr(t, "_verif_key", None) != key]
+                    await reg.close_and_remove(key)
+                    await asyncio.sleep(2.5 * period_us / 1e6)
+                    for i in range(n0):
+                        sim.ev("duplicate_request", f"c{10 + i}")
+                        await rs_tx.send(ComponentMetricRequest("ns", 10 + i, ComponentMetricId.ACTIVE_POWER, None))
+
+            sim.loop.at_abs(pre + ch.int_between("source_stop_at", run_us // 2, run_us), lambda: sim.spawn(stop_source()))
 
         ft = sim.spawn(feeder())
         await _until(sim, pre + run_us)
